@@ -1,0 +1,26 @@
+//go:build verif
+
+// Package verifhook is a verification-only observation/perturbation point.
+// It is compiled to a no-op unless the build tag `verif` is set.
+package verifhook
+
+import "sync/atomic"
+
+// Func is called with the name of a site and an index identifying the
+// worker/task reaching it.
+type Func func(site string, idx int)
+
+type holder struct{ f Func }
+
+var current atomic.Value // holder
+
+// Set installs (or, with nil, removes) the callback run at every Point.
+func Set(f Func) { current.Store(holder{f}) }
+
+// Point reports that worker idx reached site. It is only ever placed at an
+// existing suspension point (before a channel send, at goroutine start).
+func Point(site string, idx int) {
+	if h, ok := current.Load().(holder); ok && h.f != nil {
+		h.f(site, idx)
+	}
+}
